@@ -47,6 +47,26 @@ CLAIMS = {
                 "decide node reproduction or the convexity bound (scipy on values).",
         "technique": "value-flow graph + effect/alias analysis relative to the entry point, truth-table predicates",
     },
+    "C02": {
+        "text": "Decides: latitude/longitude ranges by construction (interval analysis of degrees(arcsin), "
+                "degrees(arctan2) % 360); the keep predicate (cos>=0 and beta<42) by truth table; every accessor and "
+                "returned column is the same-mask selection of a thrown-length attribute (length-class typing); unit "
+                "discipline of all ~100 trigonometric / degree-radian call sites of throw and "
+                "find_lat_long_along_traj with declared units of the public angles; scatter coverage and guard "
+                "consistency of the line-of-sight stores. Two genuine defects (unguarded Cardano-branch store, "
+                "uncovered partition at the faces of the cube) are listed in known_findings.json. It does NOT decide "
+                "exactness of the inverse CDF, spot distance, beta from explicit vectors or positions at s>0.",
+        "technique": "value-flow graph + interval, unit, length-class and truth-table predicate analyses",
+    },
+    "C07": {
+        "text": "Decides: unit and decimal-scale discipline of the kinematics (only 1e8 converts GeV to 100 PeV, only "
+                "1e-3 with c in m/s gives km, gamma is energy over mass, radians into sin); non-negativity of decay "
+                "length and altitude on the stated domain (interval analysis + sign of every monomial of the "
+                "radicand minus R^2); the five closed forms of the statement modulo algebra; homogeneity degrees; "
+                "agreement of the duplicated tau mass / lifetime constants with each other and with the reference "
+                "values. It does NOT decide the exponential distribution or monotonicity (values).",
+        "technique": "value-flow graph + unit inference, interval analysis, polynomial normal form against reference formulas",
+    },
 }
 
 NOT_APPLICABLE = {
@@ -54,6 +74,6 @@ NOT_APPLICABLE = {
            "double-precision evaluation quantifies over runtime values; no sound static argument in reach bounds "
            "float32 rounding through 2(1-cos t) at t~1e-4, so static analysis cannot address it here",
 }
-for _p in ["C02", "C07", "C08", "C09", "C10", "C11", "C12", "C13", "C14", "C15", "C16",
+for _p in [ "C08", "C09", "C10", "C11", "C12", "C13", "C14", "C15", "C16",
            "C17", "C18", "C19", "C20"]:
     NOT_APPLICABLE[_p] = PENDING
